@@ -6,6 +6,9 @@
      unit 0      header  = ftyp box + moov box, one write         (writeInit)
      unit i >= 1 part i  = moof box + mdat box, one write         (writePart)
      after the last part: the duration patch (mvhd.DurationV0 rewritten in place) and Close.
+   Every part ends at some instant (partEnd); parts hold samples of several tracks whose timestamps
+   may be offset against each other, so a part written earlier can end LATER than the last one.
+   The segment keeps the running maximum (endDTS) and writes it as the duration when it closes.
    A unit is four zones: the 8-byte box header and the body of each of its two boxes. The disk is
    a sequence of cells, one per zone, tagged ok / torn (a strict, non-empty prefix of the zone's
    bytes) / zero / garbage. A crash keeps the cells written so far, possibly tears the cell in
@@ -18,7 +21,8 @@
    segments in TraceRecFile.tla; the writer model knows no time).                            *)
 EXTENDS VerifCommon
 
-CONSTANTS MaxParts          \* parts per segment in the bounded model
+CONSTANTS MaxParts,         \* parts per segment in the bounded model
+          PartEnds          \* instants (relative to the segment start) at which a part may end
 
 \* Named deviations of the code from the statement (layer 1 switches). TRUE = the code shows the
 \* deviation. The defaults in the cfg files describe the current tree:
@@ -42,39 +46,47 @@ VARIABLES
     nunits,    \* units whose write has completed (header counts)
     patch,     \* bytes of the 4-byte duration field that carry the final value (0..4)
     crashed,   \* a crash has happened (terminal)
-    cls        \* description of the crash point (meaningful when crashed)
-vars == <<pc, disk, flight, nunits, patch, crashed, cls>>
+    cls,       \* description of the crash point (meaningful when crashed)
+    partEnd,   \* partEnd[i] = instant at which the last sample of part i ends (parts started so far)
+    endDTS,    \* the segment's running maximum of sample ends (formatFMP4Segment.endDTS)
+    durHdr     \* the duration written by the patch (0 = not written)
+vars == <<pc, disk, flight, nunits, patch, crashed, cls, partEnd, endDTS, durHdr>>
 
 NoClass == [k |-> 0, z |-> 0, torn |-> FALSE, mode |-> "cut", stage |-> "none"]
 
 Init ==
     /\ pc = "new" /\ disk = <<>> /\ flight = <<>> /\ nunits = 0 /\ patch = 0
     /\ crashed = FALSE /\ cls = NoClass
+    /\ partEnd = <<>> /\ endDTS = 0 /\ durHdr = 0
 
+\* the header is written together with the first part; a part is handed to the disk when it is
+\* closed, the segment has by then seen all its samples (write() updates endDTS sample by sample)
 StartUnit ==
     /\ ~crashed /\ pc \in {"new", "idle"} /\ nunits <= MaxParts
     /\ flight' = UnitCells(nunits) /\ pc' = "writing"
-    /\ UNCHANGED <<disk, nunits, patch, crashed, cls>>
+    /\ IF nunits = 0 THEN UNCHANGED <<partEnd, endDTS>>
+       ELSE \E e \in PartEnds : partEnd' = Append(partEnd, e) /\ endDTS' = Max(endDTS, e)
+    /\ UNCHANGED <<disk, nunits, patch, crashed, cls, durHdr>>
 
 WriteCell ==
     /\ ~crashed /\ pc = "writing" /\ flight # <<>>
     /\ disk' = Append(disk, Head(flight)) /\ flight' = Tail(flight)
-    /\ UNCHANGED <<pc, nunits, patch, crashed, cls>>
+    /\ UNCHANGED <<pc, nunits, patch, crashed, cls, partEnd, endDTS, durHdr>>
 
 FinishUnit ==
     /\ ~crashed /\ pc = "writing" /\ flight = <<>>
     /\ pc' = "idle" /\ nunits' = nunits + 1
-    /\ UNCHANGED <<disk, flight, patch, crashed, cls>>
+    /\ UNCHANGED <<disk, flight, patch, crashed, cls, partEnd, endDTS, durHdr>>
 
 \* the recorder patches the duration only when it closes a segment that has at least one part
 PatchDuration ==
     /\ ~crashed /\ pc = "idle" /\ nunits >= 2
-    /\ patch' = 4 /\ pc' = "patched"
-    /\ UNCHANGED <<disk, flight, nunits, crashed, cls>>
+    /\ patch' = 4 /\ pc' = "patched" /\ durHdr' = endDTS
+    /\ UNCHANGED <<disk, flight, nunits, crashed, cls, partEnd, endDTS>>
 
 Close ==
     /\ ~crashed /\ pc = "patched" /\ pc' = "closed"
-    /\ UNCHANGED <<disk, flight, nunits, patch, crashed, cls>>
+    /\ UNCHANGED <<disk, flight, nunits, patch, crashed, cls, partEnd, endDTS, durHdr>>
 
 Filler(mode, cells) ==
     IF mode = "cut" THEN <<>> ELSE [i \in 1..Len(cells) |-> Cell(cells[i].u, cells[i].z, mode)]
@@ -90,7 +102,7 @@ CrashWriting(mode, torn) ==
            tornfill == IF torn /\ mode # "cut" THEN <<Cell(c.u, c.z, mode)>> ELSE <<>>
        IN /\ disk' = disk \o first \o tornfill \o Filler(mode, rest)
           /\ cls' = [k |-> nunits, z |-> c.z, torn |-> torn, mode |-> mode, stage |-> "rec"]
-    /\ UNCHANGED <<pc, flight, nunits, patch>>
+    /\ UNCHANGED <<pc, flight, nunits, patch, partEnd, endDTS, durHdr>>
 
 \* crash between writes (nothing in flight); an allocated-but-unwritten tail may still follow
 CrashIdle(mode) ==
@@ -99,14 +111,14 @@ CrashIdle(mode) ==
     /\ disk' = disk \o (IF mode = "cut" THEN <<>> ELSE <<Cell(nunits, 0, mode)>>)
     /\ cls' = [k |-> nunits, z |-> 0, torn |-> FALSE, mode |-> mode,
                stage |-> IF pc = "patched" THEN "patched" ELSE IF pc = "new" THEN "new" ELSE "rec"]
-    /\ UNCHANGED <<pc, flight, nunits, patch>>
+    /\ UNCHANGED <<pc, flight, nunits, patch, partEnd, endDTS, durHdr>>
 
 \* crash inside the in-place duration patch: j of the 4 bytes carry the new value
 CrashPatch(j) ==
     /\ ~crashed /\ pc = "idle" /\ nunits >= 2 /\ j \in 1..3
     /\ crashed' = TRUE /\ patch' = j
     /\ cls' = [k |-> nunits, z |-> 0, torn |-> TRUE, mode |-> "cut", stage |-> "patchtorn"]
-    /\ UNCHANGED <<pc, disk, flight, nunits>>
+    /\ UNCHANGED <<pc, disk, flight, nunits, partEnd, endDTS, durHdr>>
 
 Next ==
     \/ StartUnit \/ WriteCell \/ FinishUnit \/ PatchDuration \/ Close
@@ -142,6 +154,12 @@ LostInLastPart ==
     crashed =>
       LET handed == { disk[i].u : i \in 1..Len(disk) } \cup { flight[i].u : i \in 1..Len(flight) }
       IN  \A u \in handed : u >= 1 /\ u \notin Served(disk) => u = nunits
+\* "segments closed normally record their true duration": the end of the latest-ending sample of
+\* ANY part, not of the last part
+SetMaxOf(S) == CHOOSE x \in S : \A y \in S : y <= x
+TrueDurationRecorded ==
+    (~crashed /\ pc \in {"patched", "closed"}) =>
+        durHdr = SetMaxOf({ partEnd[i] : i \in 1..Len(partEnd) })
 \* the duration is final only once the whole field has been rewritten after the last part
 PatchAfterParts == (patch > 0) => (flight = <<>> /\ nunits >= 2)
 TypeOK ==
